@@ -8,7 +8,7 @@ use std::io::Write as _;
 use std::process::{Command, Stdio};
 use std::time::{Duration, Instant};
 
-const PROGRAMS: &[&str] = &[
+pub const PROGRAMS: &[&str] = &[
     "", "% only a comment\n", "\n\n", "p.", "p(9223372036854775807).", "p(-9223372036854775808).", "p(9223372036854775808).", "p(0 - 9223372036854775807 - 1).", "p(- 9223372036854775807).",
     "p(9223372036854775807 + 1) :- q.", "p(X * 9223372036854775807) :- q(X).", "p(1..9223372036854775807).", "p(X/0) :- q(X).", "p(X\\0) :- q(X).", "p(#inf..#sup).", "p(a..b).", "p(-a).",
     "p(1,2,3,4,5,6,7,8,9,10,11,12,13,14,15,16,17,18,19,20,21,22,23,24,25,26,27,28,29,30,31,32,33,34,35,36,37,38,39,40).", "{p(X,Y,Z)} :- q(X,Y,Z), not not r(Z), X != Y, Y < Z.",
@@ -22,7 +22,7 @@ const THEORIES: &[&str] = &[
     "p <-> q <-> r.", "not not not not p.", "1 < 2 < 3 < 4 < 5 < 6.", "a < 1 < #sup < #inf.", "p(#inf, #sup, a, 1, X, X$i, X$s).", "forall X$s (X$s = a).", "exists X$s X$i (X$s = X$i).", "p(X$i + a).", "p(a + 1).",
     "forall X (p(X) and (q(X) or (r(X) -> (s(X) <- (t(X) <-> not u(X)))))).", "forall X X X (p(X)).", "exists X$i X$g (X$i = X$g).", "p(f).", "p(n$i).", "p(n$g, n$s).",
 ];
-const GUIDES: &[&str] = &[
+pub const GUIDES: &[&str] = &[
     "", "input: p/0.", "input: p/99999999999999999999.", "input: p/18446744073709551615.", "input: p/18446744073709551616.", "input: n -> integer. input: n -> integer.", "output: p/1. output: p/1.", "input: -> integer.",
     "assumption: forall X (p(X)).", "input: p/1. assumption: exists X$i (p(X$i) and X$i > 9223372036854775807).", "input: p/-1.", "input: p.", "lemma: p.", "spec: p.", "input: n -> foo.",
 ];
